@@ -228,6 +228,10 @@ def run_case(keys, lay, faults, flags, entry):
 
         def call():
             target.set_values_from_df(df, allow_missing_values=flags[0], allow_extra_values=flags[1])
+            first = target.values.copy()
+            target.set_values_from_df(df, allow_missing_values=flags[0], allow_extra_values=flags[1])
+            if not np.array_equal(first, target.values, equal_nan=True):
+                raise AssertionError("SECOND-IMPORT-DIFFERS")
             return target
 
     else:
@@ -257,6 +261,8 @@ def run_case(keys, lay, faults, flags, entry):
                     pass
 
     st, got = attempt(call)
+    if st == "raised" and "SECOND-IMPORT-DIFFERS" in str(got):
+        return fail("second-use", "importing the same frame a second time into the same target gave different values")
     if want == "open":
         if st == "ok" and tuple(got.values.shape) != tuple(dims.shape):
             return fail("shape", "returned array has the wrong shape")
